@@ -44,19 +44,20 @@ theorem C05_restart (cfg : Cfg σ) (arch : Disk → List Bytes) (hc : RollContra
   obtain ⟨ho, hse⟩ := restart_spec cfg s hwf
   exact ⟨hc.frame _ _ hse, fileOf_opened ho⟩
 
-/-- Main theorem. After any history (appends of any records with any fault, restarts, clock
-ticks; any trigger; any roller satisfying the contract; append mode or truncate mode), the files
+/-- Main theorem. After any history (appends of any records with any roller fault, appends whose
+encoder fails, restarts, clock ticks; any trigger; any roller satisfying the contract; append mode
+or truncate mode), the files
 on disk — retained archives oldest to newest, then the active
 file — are exactly a suffix, by whole files, of the segmented stream: nothing missing from the
 middle, nothing duplicated, nothing reordered, no record split across files. -/
 theorem C05_no_loss_no_dup_order (cfg : Cfg σ) (arch : Disk → List Bytes)
     (hc : RollContract cfg.roll cfg.path arch)
-    (d : Disk) (t0 : σ) (now : Nat) (ops : List Op) :
-    let res := grun cfg (init cfg d t0 now) (Ghost.init cfg arch d) ops
+    (d : Disk) (t0 : σ) (now : Nat) (ops : List XOp) :
+    let res := grunX cfg (init cfg d t0 now) (Ghost.init cfg arch d) ops
     ∃ k, k ≤ res.2.2.closed.length ∧
       retained cfg arch res.2.1.disk = ((res.2.2.closed ++ [res.2.2.cur]).drop k).map List.flatten := by
   intro res
-  have inv : Inv cfg arch res.2.1 res.2.2 := (C05_inv_init cfg arch hc d t0 now).history hc ops
+  have inv : Inv cfg arch res.2.1 res.2.2 := (C05_inv_init cfg arch hc d t0 now).historyX hc ops
   obtain ⟨k, hk⟩ := inv.archives
   refine ⟨min k res.2.2.closed.length, Nat.min_le_right _ _, ?_⟩
   have hdrop : res.2.2.closed.drop k = res.2.2.closed.drop (min k res.2.2.closed.length) := by
@@ -70,15 +71,23 @@ theorem C05_no_loss_no_dup_order (cfg : Cfg σ) (arch : Disk → List Bytes)
 /-- … and that segmented stream is the stream of written items: the pre-existing contents followed
 by exactly the records whose bytes reached the file, in call order, each once. The acknowledged
 records (append returned `Ok`) are a subsequence of it; the extras are whole records of appends that
-returned `Err` after their write (post-process policy failure). -/
-theorem C05_stream_is_written (cfg : Cfg σ) (arch : Disk → List Bytes) (d : Disk) (t0 : σ) (now : Nat) (ops : List Op)
+returned `Err` after their write (post-process policy failure). An append whose encoder failed
+contributes nothing at all (`writtenItemsX`). The outputs are those of the plain run (`traceX`). -/
+theorem C05_stream_is_written (cfg : Cfg σ) (arch : Disk → List Bytes) (d : Disk) (t0 : σ) (now : Nat) (ops : List XOp)
     (hnr : cfg.appendMode = true ∨ ∀ op ∈ ops, op.isRestart = false) :
-    let res := grun cfg (init cfg d t0 now) (Ghost.init cfg arch d) ops
-    res.2.2.stream = (Ghost.init cfg arch d).stream ++ writtenItems cfg.trig.pre ops res.1 ∧
-    (ackedItems ops res.1).Sublist (writtenItems cfg.trig.pre ops res.1) ∧
-    (res.1, res.2.1) = run cfg (init cfg d t0 now) ops := by
+    let res := grunX cfg (init cfg d t0 now) (Ghost.init cfg arch d) ops
+    res.2.2.stream = (Ghost.init cfg arch d).stream ++ writtenItemsX cfg.trig.pre ops res.1 ∧
+    (ackedItemsX ops res.1).Sublist (writtenItemsX cfg.trig.pre ops res.1) ∧
+    res.1 = (traceX cfg (init cfg d t0 now) ops).map (·.1) := by
   intro res
-  exact ⟨grun_stream cfg ops _ _ hnr, acked_sublist_written _ _ _, grun_fst_snd cfg _ _ ops⟩
+  exact ⟨grunX_stream cfg ops _ _ hnr, ackedX_sublist_writtenX _ _ _, (grunX_outs_state cfg _ _ ops).2⟩
+
+/-- `C05_inv_step` for an append whose encoder fails: the invariant is preserved (nothing is
+written; in pre-process mode the rotation the policy may have performed is accounted for) -/
+theorem C05_inv_step_failing_encoder (cfg : Cfg σ) (arch : Disk → List Bytes) (hc : RollContract cfg.roll cfg.path arch)
+    (s : St σ) (g : Ghost) (inv : Inv cfg arch s g) (op : XOp) :
+    Inv cfg arch (applyX cfg s op).2 (ghostStepX cfg g op (applyX cfg s op).1) :=
+  inv.stepX hc op
 
 /-- the pre-existing part of the stream: the archives found on disk (oldest first) and, in append
 mode, the content of the log file -/
@@ -181,13 +190,12 @@ theorem C05_truncate_reopen_after_failed_roll_keeps :
     res.2.disk.get? wPath = some [1, 2, 3] ∧ res.2.disk.get? (wRoller.nameOf 0) = none := by
   decide +kernel
 
-/-! ### failing encoders (finding `C05/encoder-error-torn`)
+/-! ### failing encoders (the former finding `C05/encoder-error-torn`, repaired by 9f38f0b)
 
-The theorems above are about histories of `Op`s, i.e. appends whose encoder succeeds. The driver
-also runs appends whose encoder fails after some slices (`XOp.appendFail`, mirroring the code:
-`encode(…)?` returns at once, nothing is flushed or discarded). On the `Op` fragment the extended
-semantics is the old one; with a failing encoder that has written something, a torn record reaches
-the file — the statement's "extras are whole" is false of the code as it is. -/
+Histories are lists of `XOp`: ordinary operations and appends whose encoder fails. The code now
+encodes into memory before writing, so a failing encoder writes nothing; the main theorems above
+cover such histories. On the `Op` fragment the extended semantics is the plain one. The historical
+behaviour (slices written before the error stayed in the `LogWriter`) is `appendFailUnfixed`. -/
 
 theorem C05_traceX_of_ops (cfg : Cfg σ) (s : St σ) (ops : List Op) :
     traceX cfg s (ops.map XOp.op) = trace cfg s ops := by
@@ -195,15 +203,17 @@ theorem C05_traceX_of_ops (cfg : Cfg σ) (s : St σ) (ops : List Op) :
   | nil => rfl
   | cons op ops ih => simp [traceX, trace, applyX, ih]
 
-/-- witness (test on a sample): the encoder of `[1][2]` fails after its first slice; the append
-returns `Err`, and after the next, successful append of `[3]` the active file is `[1, 3]`: the torn
-`[1]` glued in front of `[3]` -/
-theorem C05_encoder_error_tears_record :
+/-- witness (test on a sample) of the historical semantics: the encoder of `[1][2]` fails after its
+first slice; the append returns `Err`, and after the next, successful append of `[3]` the active
+file was `[1, 3]` — the torn `[1]` glued in front of `[3]`; with the repaired code it is `[3]` -/
+theorem C05_encoder_error_tears_record_unfixed :
     let cfg : Cfg Unit := { path := ['a'], appendMode := true, trig := sizeTrigger 100,
                             roll := fun p f d => deleteRoll p f d }
-    let tr := traceX cfg (init cfg Disk.empty () 0) [.appendFail [[1], [2]] 1 none, .op (.append [[3]] none)]
-    tr.map (fun e => (e.1.map (·.res), e.2.disk.get? ['a'])) =
-      [(some .errEncode, some []), (some .ok, some [1, 3])] := by
+    let s0 := init cfg Disk.empty () 0
+    let old := appendFailUnfixed cfg s0 [[1], [2]] 1 (fun _ => false)
+    let new := appendFail cfg s0 [[1], [2]] 1 (fun _ => false)
+    old.1.res = .errEncode ∧ (append cfg old.2 [[3]] (fun _ => false)).2.disk.get? ['a'] = some [1, 3] ∧
+    new.1.res = .errEncode ∧ (append cfg new.2 [[3]] (fun _ => false)).2.disk.get? ['a'] = some [3] := by
   decide +kernel
 
 /-! ### non-vacuity (tests on samples) -/
